@@ -9,6 +9,7 @@ import (
 	"encoding/binary"
 	"encoding/hex"
 	"fmt"
+	"io"
 	"regexp"
 	"sync"
 	"sync/atomic"
@@ -241,7 +242,7 @@ func both(c *mon.Ctx, cs gen.Case, id string) {
 		}
 	}
 	// ---- (b) reference encoder judged by the library decoder ---------------------------------
-	for _, o := range []ref.EncOpts{{}, {NoGlobalSpec: true}} {
+	for oi, o := range []ref.EncOpts{{}, {NoGlobalSpec: true}, {GlobalWithNoMetadata: true}} {
 		rb, err := ref.EncodeFrame(a, o)
 		if err != nil {
 			c.Fatal("reference encoder refused a generated frame %s: %v", id, err)
@@ -249,7 +250,12 @@ func both(c *mon.Ctx, cs gen.Case, id string) {
 		c.Eval(1)
 		d := detail{ID: id, Dir: "ref->lib", Frame: lazyFrame{a}, Seed: c.Seed, Comment: fmt.Sprintf("opts %+v", o)}
 		rd := bytes.NewReader(rb)
-		f2, err := codec.DecodeFrame(rd)
+		var src io.Reader = rd
+		if (hash(id)+uint64(oi))%3 == 0 {
+			src = &chunkReader{r: rd, n: 1 + int(hash(id)>>5)%9} // short reads, as a socket delivers them
+			d.Comment += " chunked source"
+		}
+		f2, err := codec.DecodeFrame(src)
 		if err != nil {
 			d.RefHex = hexCap(rb)
 			d.Err = err.Error()
@@ -275,6 +281,19 @@ func both(c *mon.Ctx, cs gen.Case, id string) {
 		c.Count("reference_bytes_accepted_by_library", 1)
 		c.Distinct(cs.Sig + "|b")
 	}
+}
+
+// chunkReader returns at most n bytes per Read.
+type chunkReader struct {
+	r io.Reader
+	n int
+}
+
+func (c *chunkReader) Read(p []byte) (int, error) {
+	if len(p) > c.n {
+		p = p[:c.n]
+	}
+	return c.r.Read(p)
 }
 
 // diagnose maps the symptoms of one well-understood deviation onto one stable key: when a frame
